@@ -1,0 +1,59 @@
+// Copyright 2022 The Go Authors. All rights reserved.
+// Use of this source code is governed by a BSD-style
+// license that can be found in the LICENSE file.
+
+//go:build verif
+
+// Machine-checked contracts for package benchmath (//@ lines, read by
+// /verif/gocv).  Compiled only under the "verif" tag; comment-only.
+
+package benchmath
+
+// ---------------------------------------------------------------------------
+// Comparisons (C13): both sample sizes, the sample's threshold, and P == 1 with
+// one warning when the underlying test reports an error.
+
+//@ func (a assumeNormal) Compare(s1, s2 *Sample) (c Comparison)
+//@   props C13
+//@   requires s1 != nil && s2 != nil && s1.Thresholds != nil
+//@   ensures c.N1 == len(s1.Values) && c.N2 == len(s2.Values)
+//@   ensures bits(c.Alpha, s1.Thresholds.CompareAlpha)
+//@   ensures errseen() ==> c.P == 1.0 && len(c.Warnings) == 1
+//@   ensures !errseen() ==> len(c.Warnings) == 0
+
+//@ func uTestSamples(alpha float64) (op string, n int)
+//@   props C13
+//@   loop 1:
+//@     invariant 0 <= idx() <= len(uTestMinP) && unchanged()
+//@     decreases len(uTestMinP) - idx()
+
+//@ func (a assumeNothing) Compare(s1, s2 *Sample) (c Comparison)
+//@   props C13
+//@   requires s1 != nil && s2 != nil && s1.Thresholds != nil
+//@   ensures c.N1 == len(s1.Values) && c.N2 == len(s2.Values)
+//@   ensures bits(c.Alpha, s1.Thresholds.CompareAlpha)
+//@   ensures errseen() ==> c.P == 1.0 && len(c.Warnings) == 1
+//@   ensures !errseen() ==> len(c.Warnings) <= 1 && (len(c.Warnings) == 1 ==> c.P > c.Alpha)
+
+//@ func (a assumeExact) Compare(s1, s2 *Sample) (c Comparison)
+//@   props C13
+//@   requires s1 != nil && s2 != nil
+//@   ensures c.N1 == len(s1.Values) && c.N2 == len(s2.Values) && c.P == 0.0 && len(c.Warnings) == 0
+
+// ---------------------------------------------------------------------------
+// Rendering rules (C13)
+
+//@ func (c Comparison) FormatDelta(old, new float64) (s string)
+//@   props C13
+//@   ensures c.P > c.Alpha ==> s == "~"
+//@   ensures !(c.P > c.Alpha) && old == new ==> s == "0.00%"
+//@   ensures !(c.P > c.Alpha) && !(old == new) && old == 0.0 ==> s == "?"
+//@   ensures !(c.P > c.Alpha) && !(old == new) && !(old == 0.0) ==> s == sprintf("%+.2f%%", iface(((new / old) - 1.0) * 100.0))
+
+//@ func (s Summary) PctRangeString() (r string)
+//@   props C13
+//@   ensures isInf(s.Lo) || isInf(s.Hi) ==> r == "∞"
+//@   ensures !(isInf(s.Lo) || isInf(s.Hi)) && (mathx.Sign(s.Center) != mathx.Sign(s.Lo) || mathx.Sign(s.Center) != mathx.Sign(s.Hi)) && !isNaN(s.Center) && !isNaN(s.Lo) && !isNaN(s.Hi) ==> r == "?"
+//@   ensures !(isInf(s.Lo) || isInf(s.Hi)) && s.Center == 0.0 && s.Lo == 0.0 && s.Hi == 0.0 ==> r == "0%"
+//@   ensures !(isInf(s.Lo) || isInf(s.Hi)) && ((s.Center > 0.0 && s.Lo > 0.0 && s.Hi > 0.0) || (s.Center < 0.0 && s.Lo < 0.0 && s.Hi < 0.0)) ==>
+//@             r == sprintf("%.0f%%", iface(100.0 * math.Max(s.Hi/s.Center - 1.0, 1.0 - s.Lo/s.Center)))
